@@ -72,7 +72,8 @@ CHECKS.update({
                 text="TLC enumerates every sequence of insert/pull/peek/extract operations (with retained and stale "
                      "handles, hence slot reuse) up to the length bound and the value each must return; all are replayed "
                      "on the real PriorityQueue and IndexedPriorityQueue; long seeded sequences (over a thousand live entries, complete "
-                     "drains, insertion counts beyond 2^16 through the churn action) are validated against PQ_Trace.tla.",
+                     "drains, insertion counts beyond 2^16 through the churn action, 70 000 / 140 000 live entries through the "
+                     "ballast action with extractions deep in the heap) are validated against PQ_Trace.tla.",
                 design="6/C20", note=SEQ_NOTE),
 })
 
@@ -97,7 +98,7 @@ CHECKS.update({
                      "run may return Ok only when nothing is left, and sink contents must match.",
                 design="6/C03", note=BENCH_NOTE),
     "C04": dict(engine="bench", spec="Bench.tla (QuiescentMeansDone, ExactlyOnce, terminal outcomes), Pool.tla "
-                                     "(OkMeansQuiescent, NoStrandedRun, BusyIsActive, OnePlace), Pool_Trace.tla",
+                                     "(OkMeansQuiescent, NoStrandedRun, BusyIsActive, OnePlace; liveness FairSpec => <>Finished), Pool_Trace.tla",
                 text="TLC checks that the executor can only return Ok when no message is queued and no handler is "
                      "half-way, and computes the terminal outcomes of every schedule (a singleton for the confluent "
                      "benches); all single-threaded schedules and free runs on 2/4/16 workers with delays at the pool "
@@ -106,7 +107,9 @@ CHECKS.update({
                      "park tokens, LIFO slot, local queues with overflow, stealing, injector buckets and hint flag); its "
                      "structural parameters are extracted from the source, TLC explores every interleaving of the "
                      "scenarios, the scenarios run on the real pool under a delay sweep and every execution is validated "
-                     "against Pool_Trace.tla; bursts of wake-ups beyond the local queue's capacity must complete.",
+                     "against Pool_Trace.tla; bursts of wake-ups beyond the local queue's capacity must complete. Under weak "
+                     "fairness of every thread TLC also checks the temporal property that every run() and the drop of the "
+                     "executor return (Terminates) on the full state graph of each scenario.",
                 design="6/C04", note=BENCH_NOTE + " Pool.tla: 2-3 workers, 3-6 tasks; st3's queue abstracted to a "
                                                   "sequence; no time-outs; the extraction of structural parameters is a "
                                                   "narrow recogniser (exit 2 when it does not understand the source)."),
